@@ -392,6 +392,149 @@ def _yield_guard(f, y):
     return None, "no de-duplication guard found around it"
 
 
+def stage_disjointness(f, S, Y):
+    """a later stage selects its results from the set S ("pending") while an earlier stage recorded what it returned in Y: S and Y
+    must be disjoint when the later stage starts.  Accepted: (a) every element enters S under a `not in Y` test (or after
+    `if x in Y: continue`), and S is filled in no other way; (b) Y is subtracted from S (`for h in Y: S.discard(h)`, `S -= Y`,
+    `S.difference_update(Y)`) at a point after which nothing more is recorded in Y before S is consumed."""
+    from ..cfg import cfg_of
+    fills, adds, subtract = [], [], []
+    for n in walk_local(f.node):
+        if isinstance(n, ast.Call) and isinstance(n.func, ast.Attribute) and n.func.attr == "append" and n.args and (
+                (isinstance(n.func.value, ast.Subscript) and norm(n.func.value.value) == S) or
+                (isinstance(n.func.value, ast.Call) and isinstance(n.func.value.func, ast.Attribute) and n.func.value.func.attr == "setdefault"
+                 and norm(n.func.value.func.value) == S)):
+            adds.append(n)  # S is a name map: S[k].append(e) / S.setdefault(k, []).append(e)
+        elif isinstance(n, ast.Assign) and any(isinstance(t, ast.Subscript) and norm(t.value) == S for t in n.targets):
+            if isinstance(n.value, ast.List) and not n.value.elts:
+                continue
+            if isinstance(n.value, ast.List) and len(n.value.elts) == 1:
+                adds.append(ast.Call(func=ast.Attribute(value=ast.Name(id=S), attr="append"), args=[n.value.elts[0]], keywords=[]))
+                adds[-1]._anchor = n
+            else:
+                fills.append(n)
+        elif isinstance(n, ast.Call) and isinstance(n.func, ast.Attribute) and norm(n.func.value) == S:
+            if n.func.attr == "add" and n.args:
+                adds.append(n)
+            elif n.func.attr in ("update", "union"):
+                fills.append(n)
+            elif n.func.attr == "difference_update" and n.args and norm(n.args[0]) == Y:
+                subtract.append(n)
+        elif isinstance(n, ast.Call) and any(isinstance(a, ast.Name) and a.id == S for a in n.args) and not (
+                isinstance(n.func, ast.Attribute) and norm(n.func.value) in (S, Y)) and norm(n.func) not in ("len", "bool", "list", "set", "sorted"):
+            fills.append(n)  # handed to a helper that fills it
+        elif isinstance(n, ast.Assign) and any(norm(t) == S for t in n.targets):
+            v = n.value
+            empty = (isinstance(v, ast.Call) and norm(v.func) in ("set", "OrderedDict", "dict", "list") and not v.args) or \
+                    (isinstance(v, (ast.Set, ast.List, ast.Dict)) and not getattr(v, "elts", getattr(v, "keys", [])))
+            if not empty:
+                fills.append(n)
+        elif isinstance(n, ast.AugAssign) and norm(n.target) == S:
+            if isinstance(n.op, ast.Sub) and norm(n.value) == Y:
+                subtract.append(n)
+            elif isinstance(n.op, (ast.BitOr, ast.Add)):
+                fills.append(n)
+        elif isinstance(n, ast.For) and norm(n.iter) == Y:
+            v = norm(n.target)
+            if any(isinstance(c, ast.Call) and isinstance(c.func, ast.Attribute) and c.func.attr in ("discard", "remove") and norm(c.func.value) == S
+                   and c.args and norm(c.args[0]) == v for c in ast.walk(n)):
+                subtract.append(n)
+    # (b)
+    if subtract:
+        cfg = cfg_of(f.node)
+        stmt_of = {}
+        for cn in cfg.nodes:
+            if cn.ast is not None:
+                stmt_of.setdefault(id(cn.ast), []).append(cn)
+        for sub in subtract:
+            st = sub
+            if not isinstance(st, ast.stmt):
+                for p_ in parent_chain(sub):
+                    if isinstance(p_, ast.stmt):
+                        st = p_
+                        break
+            starts = stmt_of.get(id(st), [])
+            seen, todo = set(), list(starts)
+            late = None
+            while todo:
+                cn = todo.pop()
+                for nx, lab in cn.succ:
+                    if nx.id in seen:
+                        continue
+                    seen.add(nx.id)
+                    todo.append(nx)
+                    if nx.ast is not None and nx.kind == "stmt":
+                        for c in ast.walk(nx.ast):
+                            if isinstance(c, ast.Call) and isinstance(c.func, ast.Attribute) and c.func.attr == "add" and norm(c.func.value) == Y:
+                                late = c
+            if starts and late is None:
+                return True, "%s is subtracted from %s after the last insertion into %s" % (Y, S, Y)
+        return False, ("`%s` is subtracted from `%s`, but results are still recorded in `%s` afterwards (`%s`): those are not removed from `%s` and "
+                       "the later stage returns them a second time" % (Y, S, Y, short(late, 40) if late is not None else "?", S))
+    # (a)
+    if fills:
+        return False, "`%s` is filled by `%s` without excluding what `%s` already holds" % (S, short(fills[0], 50), Y)
+    if not adds:
+        return None, "nothing is inserted into %s" % S
+    for a in adds:
+        e = norm(a.args[0])
+        ok = False
+        a = getattr(a, "_anchor", a)
+        prev = a
+        for p_ in parent_chain(a):
+            if isinstance(p_, ast.If) and any(prev is s_ or any(prev is z for z in ast.walk(s_)) for s_ in p_.body):
+                for t in (p_.test.values if isinstance(p_.test, ast.BoolOp) and isinstance(p_.test.op, ast.And) else [p_.test]):
+                    if isinstance(t, ast.Compare) and len(t.ops) == 1 and isinstance(t.ops[0], ast.NotIn) and norm(t.left) == e and norm(t.comparators[0]) == Y:
+                        ok = True
+            for fld in ("body", "orelse"):
+                blk = getattr(p_, fld, None)
+                if isinstance(blk, list) and any(prev is s_ for s_ in blk):
+                    i = [k for k, s_ in enumerate(blk) if prev is s_][0]
+                    for s_ in blk[:i]:
+                        if isinstance(s_, ast.If) and isinstance(s_.test, ast.Compare) and len(s_.test.ops) == 1 and isinstance(s_.test.ops[0], ast.In) \
+                                and norm(s_.test.left) == e and norm(s_.test.comparators[0]) == Y and s_.body \
+                                and isinstance(s_.body[-1], (ast.Continue, ast.Return, ast.Break)):
+                            ok = True
+            if isinstance(p_, (ast.FunctionDef, ast.For, ast.While)) and ok:
+                break
+            if isinstance(p_, ast.FunctionDef):
+                break
+            prev = p_
+        if not ok:
+            return False, "`%s` enters `%s` without a test that it is not already in `%s`" % (e, S, Y)
+    return True, "every element enters %s under a not-in-%s test" % (S, Y)
+
+
+def _stage_pairs(f):
+    Ys, Ss = set(), set()
+    for y in walk_local(f.node):
+        if isinstance(y, ast.Yield):
+            idiom, desc = _yield_guard(f, y)
+            if idiom in ("G1", "G2", "G4"):
+                sname = desc.split(" in ")[1].split(" ")[0]
+                (Ys if idiom == "G1" else Ss).add(sname)
+            elif idiom == "G3":
+                import re as _re
+                m = _re.search(r"del (\w+)\[", desc) or _re.search(r"= (\w+)\.pop\(", desc) or _re.search(r"^(\w+)\.pop\(", desc)
+                if m:
+                    Ss.add(m.group(1))
+    return [(S, Y) for S in sorted(Ss) for Y in sorted(Ys) if S != Y]
+
+
+def check_stages(R, rid, f):
+    k = 0
+    for S, Y in _stage_pairs(f):
+        k += 1
+        ok, why = stage_disjointness(f, S, Y)
+        if ok is False:
+            R.bad(rid, "%s|stage %s vs %s" % (f.key, S, Y), f.loc(),
+                  "%s returns elements from `%s` in a later stage while `%s` records what earlier stages returned, and the two are not kept "
+                  "disjoint: %s" % (f.qualname, S, Y, why))
+        else:
+            R.ok(rid, "%s: %s and %s are disjoint when the later stage starts (%s)" % (f.qualname, S, Y, why), f.loc())
+    return k
+
+
 def _q5(ctx, R):
     R.rule("Q5", "yield guard: every yield of a raw query generator is dominated by a de-duplication idiom "
                  "(not-in/add, in/remove, consumed name-map bucket, matched-set subtraction)")
@@ -436,6 +579,12 @@ def _q5(ctx, R):
                           "%s: `yield %s` (under `%s`) %s: the same element can be returned twice" % (f.qualname, norm(y.value), " / ".join(ctxs), desc))
     R.count("yields in raw query generators (Q5)", n)
     R.floor("yields in raw query generators (Q5)", 80)
+    st = 0
+    for mod in _modules(P):
+        name, pub, mid, raw = _triple(mod)
+        st += check_stages(R, "Q5", raw)
+    R.count("two-stage generators (Q5 stage disjointness)", st)
+    R.floor("two-stage generators (Q5 stage disjointness)", 2)
 
 
 def _q8(ctx, R):
